@@ -656,9 +656,19 @@ pub mod tree {
                 let mut tree = self.reader();
                 for slot in 0..page.slots {
                     let schema = &self.schema;
-                    let keys = tree.with_cell_at(Position::new(page.id, slot), |bytes| Row::from_bytes_checked(bytes, schema));
+                    // only the key columns: a separator in an interior page may hold nothing else
+                    let keys = tree.with_cell_at(Position::new(page.id, slot), |bytes| -> Result<Vec<DataType>, String> {
+                        let mut cursor = crate::storage::tuple::TupleHeader::SIZE + schema.num_values().div_ceil(8);
+                        let mut out = Vec::with_capacity(nk);
+                        for col in schema.iter_keys() {
+                            let (value, next) = col.datatype().deserialize(bytes, cursor).map_err(|e| e.to_string())?;
+                            out.push(value.to_owned().unwrap_or(DataType::Null));
+                            cursor = next;
+                        }
+                        Ok(out)
+                    });
                     match keys {
-                        Ok(Ok(row)) => page.keys.push(row.into_inner().into_vec().into_iter().take(nk).collect()),
+                        Ok(Ok(k)) => page.keys.push(k),
                         Ok(Err(e)) => info.errors.push(format!("page {} slot {slot}: {e}", page.id)),
                         Err(e) => info.errors.push(format!("page {} slot {slot}: {e}", page.id)),
                     }
